@@ -173,12 +173,13 @@ Proof. exact scan_slots_ok. Qed.
 Print Assumptions write_scan_covers_every_slot.
 
 (* [FULL] an acknowledged write is in place. For every tract length, replica count, set of armed per-replica write
-   faults, persistent or first-execution-only, state related to a sparse file f, offset and data, if WriteAt returns
+   faults, persistent or first-execution-only, and set of armed curator faults on the master lookup, StatBlob,
+   GetTracts, ExtendBlob and AckExtendBlob calls, state related to a sparse file f, offset and data, if WriteAt returns
    no error then it wrote everything and the state is related to f with the data written at the offset, exactly as
    the fault-free write, including the path through cache invalidation and re-execution *)
 Theorem write_ack_means_written :
-  forall tl repl fl st f off b n st', 0 < tl -> R tl st f -> (0 <= off)%Z ->
-    write_at_f tl repl fl st off b = ((n, E_OK), st') ->
+  forall tl repl fl cf st f off b n st', 0 < tl -> R tl st f -> (0 <= off)%Z ->
+    write_at_f tl repl fl cf st off b = ((n, E_OK), st') ->
     n = rlen b /\ R tl st' (sf_write f (Z.to_N off) b).
 Proof. exact write_at_f_ack. Qed.
 Print Assumptions write_ack_means_written.
